@@ -291,11 +291,17 @@ def ref_program(prog):
     cur = ref_deep_overlay(base, forced)
     undecidable = False
     for st in prog["overlays"]:
-        sk = ref_skip(st.get("skipIf"), env)
+        sk = ref_skip(st.get("skipIf"), env)      # the skipIf decides first …
         if sk == "fail":
             undecidable = True
         if sk is True:
-            continue
+            continue                               # … a skipped step's inputs are never looked at
+        if st["kind"] == "vf" and st.get("inputs"):
+            try:
+                ref_eval(st["inputs"], env)
+            except BadCase:
+                # an APPLIED function overlay whose inputs do not evaluate: no target at all
+                return None, None, "must-fail"
         if st["kind"] == "inline":
             cur = ref_merge(cur, st["overlay"], ref_overlay_env(env, cur))
         else:
@@ -559,7 +565,10 @@ class Impl:
 
         async def go():
             vfs = []
+            late = [n for n in prog.get("late_vfs") or [] if n in prog["vfs"]]
             for name, vf in prog["vfs"].items():
+                if name in late:
+                    continue         # this ValueFunction arrives only after the ResourceFunction was prepared
                 fn = await ku.offer_value_function(name, {k: copy.deepcopy(v) for k, v in vf.items() if v is not None})
                 if not isinstance(fn, ValueFunction):
                     out["error"] = f"prepare ValueFunction {name}: {getattr(fn, 'message', fn)!r}"
@@ -575,6 +584,37 @@ class Impl:
             if not isinstance(fn, ResourceFunction):
                 out["error"] = f"prepare ResourceFunction: {getattr(fn, 'message', fn)!r}"
                 return
+            if late:
+                # the window before the ValueFunction arrives: a listed overlay is unavailable, so a reconcile
+                # may not produce any target (HEAD: Retry, no request)
+                env0 = {"inputs": prog["inputs"]}
+                name0, ns0 = str(ref_eval(api["name"], env0)), str(ref_eval(api["namespace"], env0))
+                cl = Cluster()
+                if prog["mode"] == "patch":
+                    cl.put(api["apiVersion"], api["plural"], ns0, name0,
+                           {"apiVersion": api["apiVersion"], "kind": api["kind"],
+                            "metadata": {"name": name0, "namespace": ns0, "uid": "live-uid"}})
+                res = await reconcile_resource_function(
+                    api=cl, location="c12", function=fn, owner=("elsewhere", dict(ku.OWNER_REF)),
+                    inputs=celpy.json_to_cel(prog["inputs"]))
+                out["window"] = {"outcome": ku.outcome_class(res.outcome),
+                                 "requests": [{"method": m["method"], "body": m["body"]} for m in cl.mutations()]}
+                previous = fn
+                for name in late:
+                    vf = prog["vfs"][name]
+                    await ku.offer_value_function(name, {kk: copy.deepcopy(v) for kk, v in vf.items() if v is not None})
+                for _ in range(80):
+                    await asyncio.sleep(0)
+                    if cache.get_resource_from_cache(resource_class=ResourceFunction, cache_key="rf") is not previous:
+                        break
+                for _ in range(10):
+                    await asyncio.sleep(0)
+                fn = cache.get_resource_from_cache(resource_class=ResourceFunction, cache_key="rf")
+                out["window"]["reprepared"] = fn is not previous
+                if not isinstance(fn, ResourceFunction):
+                    out["error"] = f"ResourceFunction after its ValueFunction arrived: {getattr(fn, 'message', fn)!r}"
+                    return
+                vfs = [cache.get_resource_from_cache(resource_class=ValueFunction, cache_key=n) for n in prog["vfs"]]
             # dependency updates: each referenced ValueFunction gets a new resourceVersion; the cache's monitor
             # task re-prepares the ResourceFunction from its stored spec when the loop turns
             observed = 0
@@ -962,7 +1002,7 @@ def gen_program(r):
         if i == bad_skip_at:
             skip = r.choice(SKIP_UNDECIDABLE)
         res_paths = [["resource", k] for k in cur if k.isidentifier()] + [["resource", "metadata", "name"]]
-        earlier_vf = [x for x in prog["overlays"] if x["kind"] == "vf"]
+        earlier_vf = [x for x in prog["overlays"] if x["kind"] == "vf" and not x.get("bad_inputs")]
         new_vf = None
         if r.random() < 0.6:
             ov = (copy.deepcopy(r.choice(IDENTITY_ATTACKS)) if r.random() < 0.25
@@ -988,8 +1028,17 @@ def gen_program(r):
             ret = gen_overlay(r, r.choice([1, 2, 3, 4, 5]), vctx, cur)
             prog["vfs"][name] = {"locals": vloc, "return": ret}
             st = {"kind": "vf", "skipIf": skip, "ref": name, "inputs": sin}
+        if st["kind"] == "vf":
+            # `inputs` that do not evaluate: harmless on a skipped step (the skipIf decides first — the usual
+            # `skipIf: =!has(inputs.tls)` + `inputs: {secret: =inputs.tls.secretName}`), fatal on an applied one
+            sk, x = ref_skip(skip, env), r.random()
+            if (sk is True and x < 0.5) or (sk is False and x < 0.04):
+                bad = dict(st["inputs"] or {})
+                bad[r.choice(list(bad)) if bad else "p"] = r.choice(
+                    ["=inputs.tls.secretName", "=inputs.em.nokey", "=inputs.absent", "=inputs.s.sub"])
+                st["inputs"], st["bad_inputs"] = bad, True
         prog["overlays"].append(st)
-        if ref_skip(skip, env) is not True:
+        if ref_skip(skip, env) is not True and not st.get("bad_inputs"):
             try:
                 if st["kind"] == "inline":
                     cur = ref_merge(cur, st["overlay"], ref_overlay_env(env, cur))
@@ -1021,6 +1070,12 @@ def gen_program(r):
     # the function is fetched from the cache after its overlayRef dependencies were updated n times
     if prog["vfs"]:
         prog["reprepare"] = r.choice([0, 0, 1, 2, 2, 3])
+        if r.random() < 0.3:
+            # a referenced ValueFunction arrives only after the ResourceFunction was prepared; a reconcile in the
+            # window in between must not produce a target from the remaining overlays
+            names = sorted({st["ref"] for st in prog["overlays"] if st["kind"] == "vf"})
+            if names:
+                prog["late_vfs"] = [r.choice(names)] if r.random() < 0.7 else names
     if prog["mode"] == "create" and r.random() < 0.3 and not (prog.get("identity_template") and not prog["overlays"]):
         cur2 = ref_deep_overlay(cur, forced) if prog["overlays"] else cur
         res_paths = [["resource", k] for k in cur2 if k.isidentifier()]
@@ -1061,7 +1116,8 @@ def req_vf(case):
             "ret": to_wire(case["vf"]["return"])}
 
 
-def req_program(prog):
+def req_program(prog, window=False):
+    """window=True: the state in which the ResourceFunction was prepared (late ValueFunctions unavailable)"""
     env = {"inputs": prog["inputs"]}
     steps = []
     for st in prog["overlays"]:
@@ -1070,6 +1126,7 @@ def req_program(prog):
         else:
             vf = prog["vfs"][st["ref"]]
             steps.append({"kind": "vf", "skipIf": st.get("skipIf"),
+                          "available": not (window and st["ref"] in (prog.get("late_vfs") or [])),
                           "inputs": to_wire(st["inputs"]) if st.get("inputs") else None,
                           "locals": to_wire(vf["locals"]) if vf.get("locals") else None,
                           "ret": to_wire(vf["return"])})
@@ -1127,10 +1184,20 @@ def oracle_program(prog, got):
         target, view, undecidable = ref_program(prog)
     except BadCase:
         return None
+    w0 = got.get("window")
+    if w0 and w0["requests"]:
+        # prepared before a referenced ValueFunction arrived: one listed overlay is unavailable, and a
+        # reconcile in that window may not produce a target from the remaining overlays
+        return (f"a target was sent ({[q['method'] for q in w0['requests']]}) while the listed overlayRef "
+                f"{prog.get('late_vfs')} was not available yet: a listed, non-skipped overlay is missing from it")
     if got["error"]:
         return got["error"]
     if got["impure"]:
         return "; ".join(got["impure"])
+    if undecidable == "must-fail":
+        if got["permfail"]:
+            return None
+        return (f"{got['method']} sent although the inputs of an applied function overlay do not evaluate")
     want = view if prog["mode"] == "create" else target
     if undecidable:
         # some skipIf is not a boolean: no target may be materialised (PermFail, no request) — or, at the
@@ -1143,7 +1210,8 @@ def oracle_program(prog, got):
                     "body is not base + every overlay whose skipIf is not true")
         return None
     if got["permfail"]:
-        return f"PermFail and no request although every expression evaluates: {got.get('permfail_message')!r}"
+        return ("PermFail and no request although every expression of every non-skipped step evaluates "
+                f"(a skipped step's inputs must not be evaluated): {got.get('permfail_message')!r}")
     w, b = norm_expected(want, got["body"])
     if canon_unordered(b) != canon_unordered(w):
         return f"{got['method']} body is not base + forced overlay + non-skipped overlays in order + forced overlay"
@@ -1176,6 +1244,8 @@ def category(msg):
         return "impure"
     if msg.startswith("expected one"):
         return "no-mutation"
+    if msg.startswith("a target was sent"):
+        return "window"
     if "raised" in msg or "PermFail" in msg or msg.startswith("prepare"):
         return "error"
     return "value"
@@ -1381,6 +1451,7 @@ def explore(ck, impl, drv, n_unit, n_vf, n_prog, n_ov, salt="", model=True):
         reqs += [req_program(p) for p in progs]
         reqs += [{"op": "overlay", "resource": to_wire(a), "overlay": to_wire(b)} for a, b in ovs]
         reqs += [req_vf({"vf": q["vf"], **c}) for q in seqs for c in q["calls"]]
+        reqs += [req_program(p, window=True) for p in progs if p.get("late_vfs")]
     try:
         answers = drv.ask(reqs) if model else []
     except Infra:
@@ -1397,6 +1468,7 @@ def explore(ck, impl, drv, n_unit, n_vf, n_prog, n_ov, salt="", model=True):
     ans_prog = [next(it) for _ in progs] if model else [None] * len(progs)
     ans_ov = [next(it) for _ in ovs] if model else [None] * len(ovs)
     ans_seq = [[next(it) for _ in q["calls"]] if model else [None] * len(q["calls"]) for q in seqs]
+    ans_window = {id(p): (next(it) if model else None) for p in progs if p.get("late_vfs")}
 
     def model_err(a):
         return isinstance(a, dict) and "error" in a
@@ -1516,6 +1588,17 @@ def explore(ck, impl, drv, n_unit, n_vf, n_prog, n_ov, salt="", model=True):
             ck.count("program-owned")
         if prog.get("twin"):
             ck.count("program-one-expression-at-two-paths-then-merge-into-one")
+        for st in prog["overlays"]:
+            if st.get("bad_inputs"):
+                ck.count("step:vf:inputs-do-not-evaluate:" + ("skipped" if ref_skip(st.get("skipIf"), {"inputs": prog["inputs"]}) is True else "applied-or-undecidable"))
+        if prog.get("late_vfs"):
+            w0 = got.get("window") or {}
+            ck.count(f"program-valuefunction-arrives-late:window-outcome={w0.get('outcome')}:requests={len(w0.get('requests') or [])}:reprepared={w0.get('reprepared')}")
+            aw = ans_window.get(id(prog))
+            if aw is not None and not model_err(aw) and w0:
+                # model: an unavailable listed overlay gives no target  <->  no request in the window
+                if bool(aw.get("fail")) != (not w0["requests"]):
+                    ck.disagree({"kind": "program", "case": prog}, aw, w0, "no-target-while-a-listed-overlay-is-unavailable")
         if prog.get("reprepare"):
             ck.count(f"program-reprepare:{prog['reprepare']}:observed={got.get('reprepared')}")
         if prog.get("identity_template"):
